@@ -248,7 +248,9 @@ def runAll (start : Nat) : Nat → State → List HOp → List Json → List Jso
     -- after the last op: the model built from scratch by `rebuild` (the left-hand side of `C03_refines_fresh`)
     let o := if rest.isEmpty && !(i < start) then
         let f := freshState s'
-        o.setObjVal! "rebuilt" (Json.mkObj [("ids", idsJ f), ("keys", keysJ f.content)])
+        o.setObjVal! "rebuilt" (Json.mkObj [("ids", idsJ f), ("keys", keysJ f.content),
+          -- the declared names of `C03_one_name_space` / `Exact`: seven key lists and every surrogate's outputs
+          ("names", strsJ (contentNames f.content))])
       else o
     runAll start (i + 1) s' rest (if i < start then acc else o :: acc)
 
